@@ -261,7 +261,34 @@ def run(ctx):
         elif len(r) == 1 and r[0] in wrong:
             ctx.bad("R17.4", f, "prefix-idiom", "starts_with is %s: true for an occurrence anywhere, not only at position 0" % r[0], f)
         else:
-            ctx.broken("R17.4", f, "prefix-idiom", "starts_with is %s: not one of the recognised position-0 idioms" % r, f)
+            # early answers in front of one core idiom: each constant return must be right for every input it covers
+            rets = [(bid, e, ir.unwrap(e["expr"].get("e"))) for bid, _, e in f.roots() if e["expr"].get("k") == "return"]
+            core = [x for x in rets if fmt(x[2]) in good]
+            consts = [x for x in rets if fmt(x[2]) in ("true", "false")]
+            if len(core) == 1 and len(core) + len(consts) == len(rets) and not cfg.loop_blocks(f):
+                ctx.ok("R17.4", f, "prefix-idiom", fmt(core[0][2]), f)
+                sz = lambda v: r"%s\.(size|length)\(\)" % re.escape(v)
+                for bid, e, val in consts:
+                    # the branch edge this return hangs on
+                    guard = None
+                    dom = cfg.dominators(f)
+                    for d0 in sorted(dom.get(bid, ()), key=lambda x: len(dom.get(x, ()))):
+                        c = f.term(d0).get("cond")
+                        if c is None or d0 == bid:
+                            continue
+                        for to, lab in f.succs(d0):
+                            if not cfg.reachable_without_edge(f, d0, to, bid):
+                                guard = (fmt(ir.unwrap(c)), lab)  # the nearest such edge wins (dominators visited outermost first)
+                    g = guard[0] if guard and guard[1] == "true" else ("!(%s)" % guard[0] if guard else "?")
+                    if fmt(val) == "true":
+                        okg = re.fullmatch(r"%s\.empty\(\)|\(%s == 0\)" % (re.escape(b), sz(b)), g) is not None
+                        why = "`return true` under %s: only the empty prefix may be answered without comparing" % g
+                    else:
+                        okg = re.fullmatch(r"\(%s > %s\)|\(%s < %s\)" % (sz(b), sz(a), sz(a), sz(b)), g) is not None
+                        why = ("`return false` under %s: only a prefix LONGER than the string may be refused without comparing (with >= a string is no longer a prefix of itself)" % g)
+                    ctx.check(okg, "R17.4", f, "early-answer:%s@%s" % (fmt(val), e.get("ln")), why, (f, e.get("ln")), why_ok=g)
+            else:
+                ctx.broken("R17.4", f, "prefix-idiom", "starts_with is %s: not one of the recognised position-0 idioms" % r, f)
     ctx.assume("the split/join inverse law, piece counts and the full output equations are statements about runtime strings: not decided")
     ctx.trust("p = s.find(x, from): p == npos or from <= p (Appendix D.2)")
 
